@@ -12,7 +12,7 @@ class EngineLimit(Exception): pass
 VISIBLE_RT = {'vf_visible', 'vf_spin_wait', 'vf_spin_wait2', 'pthread_mutex_lock', 'pthread_mutex_unlock', 'pthread_mutex_trylock',
               '_ZNSt18condition_variable4waitERSt11unique_lockISt5mutexE', '_ZNSt18condition_variable10notify_oneEv',
               '_ZNSt18condition_variable10notify_allEv', 'pthread_cond_clockwait', 'pthread_cond_timedwait',
-              '_ZNSt6thread4joinEv', 'vf_thread_body', 'vf_join_all', 'vf_wait_until_eq'}
+              '_ZNSt6thread4joinEv', 'vf_thread_body', 'vf_join_all', 'vf_wait_until_eq', 'vf_wait_until_ne'}
 CV_WAIT = {'_ZNSt18condition_variable4waitERSt11unique_lockISt5mutexE', 'pthread_cond_clockwait', 'pthread_cond_timedwait'}
 EXC_HDR = 32
 
@@ -541,6 +541,15 @@ class Engine:
             if c is True: return [(s.goto(f, ctrl, bi, I.t, g), g)]
             if c is False: return [(s.goto(f, ctrl, bi, I.f, g), g)]
             g1, g2 = split(g, c)
+            if s.opts.get('feas_br') and s.concrete is None:
+                # eager pruning: an arm whose guard is unsatisfiable under everything collected so far is not explored
+                # (exact: only infeasible paths are dropped; an undecided arm is kept)
+                res = []
+                if not isinstance(g1, bool) and not s.feasible(g1): g1 = False
+                if not isinstance(g2, bool) and not s.feasible(g2): g2 = False
+                if g1 is False and g2 is not False: return [(s.goto(f, ctrl, bi, I.f, g), g)]
+                if g2 is False and g1 is not False: return [(s.goto(f, ctrl, bi, I.t, g), g)]
+                if g1 is False and g2 is False: return []
             return [(s.goto(f, ctrl, bi, I.t, g1), g1), (s.goto(f, ctrl, bi, I.f, g2), g2)]
         if op == 'switch':
             v = s.val(f, I.v); w = s.width(I.v.ty); res = []; rest = g
@@ -807,6 +816,8 @@ class Engine:
             return en
         if nm == 'vf_wait_until_eq':
             return icmp('eq', s.mem.load(s.val(f, I.args[0]), 4, sg, 'vf_wait_until_eq', check=False), s.val(f, I.args[1]), 32)
+        if nm == 'vf_wait_until_ne':
+            return icmp('ne', s.mem.load(s.val(f, I.args[0]), 4, sg, 'vf_wait_until_ne', check=False), s.val(f, I.args[1]), 32)
         if nm == 'vf_thread_body':
             k = s.val(f, I.args[0])
             return k < len(s.spawned) if isinstance(k, int) else False
@@ -1035,7 +1046,11 @@ class Engine:
                     s.assume(gor(gnot(gand(g, anyw)), picked))
             if I.res is not None: ret(0, 32)
             return
-        if nm in ('vf_join_all', 'vf_wait_until_eq'): return
+        if nm in ('vf_join_all', 'vf_wait_until_eq', 'vf_wait_until_ne'): return
+        if nm == 'vf_clock_peek': ret(s.tstate[s.NT].get('now', 0), 64); return
+        if nm == 'vf_clock_at_least':
+            now = s.tstate[s.NT].get('now', 0); v = A(0)
+            s.tset(s.NT, 'now', ite(icmp('ugt', v, now, 64), v, now, 64), g, 64); return
         if nm == 'vf_stop_here': return [((('done',),), g)]
         if nm.startswith('_ZNSt6thread15_M_start_thread'):
             if g is not True: raise Unsupported('std::thread created under a symbolic guard')
@@ -1129,7 +1144,14 @@ class Engine:
         now = s.tstate[s.NT].get('now', 0)
         d = s.nondet(8, 'clock_delta')
         if s.opts.get('clock_frozen'): d = 0
-        now2 = binop('add', now, s.cast('zext', d, TInt(8), TInt(64)), 64)
+        ch = s.opts.get('clock_choices')
+        if ch:
+            # time advances by one of a few concrete amounts: 'now' stays a finite set of concrete alternatives, so the
+            # seconds/nanoseconds normalisation (64-bit division by 1e9) is evaluated per alternative instead of bit-blasted
+            s.assume(gor(gnot(g), icmp('ult', d, len(ch), 8)))
+            d = mk_gv([(icmp('eq', d, i_, 8), int(c_)) for i_, c_ in enumerate(ch)], 64)
+            now2 = binop('add', now, d, 64)
+        else: now2 = binop('add', now, s.cast('zext', d, TInt(8), TInt(64)), 64)
         s.tset(s.NT, 'now', now2, g, 64)
         if nm == 'vf_clock':
             if I.res is not None: s.setreg(f, I.res, now2, g, 64)
